@@ -22,6 +22,9 @@ type KnownFinding struct {
 	Status     string `json:"status"` // open | fixed
 	Commit     string `json:"commit,omitempty"`
 	Finding    string `json:"finding,omitempty"`
+	// for findings shown by a search harness (obligation "harness:<run>"): regexp the harness's CONFIRMED line must match, so
+	// that a different counterexample of the same harness is still reported
+	WitnessMatch string `json:"witness_match,omitempty"`
 }
 
 type Baseline struct {
@@ -420,6 +423,12 @@ func cmdCheck(args []string) int {
 	// demonstrate an OPEN known finding are skipped (they would re-report it).
 	if *tier == "thorough" {
 		for _, hs := range runHarnessSweep(prop, pr, known) {
+			if kf := matchesKnown(known, prop, "harness:"+fmt.Sprint(hs["harness_run"])); kf != nil && hs["result"] == "violation" {
+				if re, err := regexp.Compile(kf.WitnessMatch); err == nil && kf.WitnessMatch != "" && re.MatchString(fmt.Sprint(hs["failing_input"])) {
+					knownHit = append(knownHit, fmt.Sprintf("KNOWN-FINDING: property=%s harness:%s fails (bounded search on the real code): %s", prop, hs["harness_run"], kf.Witness))
+					hs["result"] = "known finding: " + kf.Witness
+				}
+			}
 			if hs["result"] == "violation" {
 				nviol++
 				content := map[string]interface{}{"obligation": "harness:" + fmt.Sprint(hs["harness_run"]), "kind": "bounded-search", "result": "counterexample found on the real code",
@@ -970,6 +979,15 @@ func runHarnessSweep(prop string, pr *PropRun, known []KnownFinding) []map[strin
 		key := fam.Pkg + "/" + fam.File + "/" + fam.Run
 		if done[key] {
 			continue
+		}
+		if len(fam.Props) > 0 {
+			in := false
+			for _, p := range fam.Props {
+				in = in || p == prop
+			}
+			if !in {
+				continue
+			}
 		}
 		matches, knownOnly := false, false
 		for _, o := range pr.obls {
